@@ -417,26 +417,37 @@ def rule_stream_primitives(P, rep):
     for name, W in (('sgetb32', 32), ('sgetb64', 64)):
         g = P.fn(name)
         rep.analysed(g)
-        shls = [i for i in g.all_insts() if i.op == 'shl' and g.const_of(i.ops[1]) is None]
-        # the bound check: icmp sge/uge (load s), W with the true edge leaving the loop (returning)
-        checks = []
-        for b in range(len(g.blocks)):
-            t = g.term(b)
-            if t.op == 'br' and len(t.ops) == 3:
-                ci = g.inst_of(t.ops[0])
-                if ci is not None and ci.op == 'icmp' and g.const_of(ci.ops[1]) is not None and "s" == g.expr(ci.ops[0]).strip('()') and ci.pred in ('sge', 'uge', 'sgt', 'ugt'):
-                    c = g.const_of(ci.ops[1])
-                    lim = c if ci.pred in ('sge', 'uge') else c + 1
-                    checks.append((t, lim))
-        ok = bool(shls) and bool(checks) and all(lim <= W for _, lim in checks)
-        # every back edge of the loop passes the check: the check block dominates the latch's predecessor edge
-        if ok:
-            t, lim = checks[0]
-            for h, body in g.loops.items():
-                for b in body:
-                    if h in g.succ[b]:
-                        ok = ok and g.bdominates(t.block, b)
-        rep.check(ok, 'R-C09-2', '%s shift bound' % name, g.file, '%d variable shifts; continue only while shift < %s' % (len(shls), [l for _, l in checks]), function=name, construct='shift bound')
+        # a damaged varint (continuation bytes without end) must be refused without ever shifting by the width or more:
+        # the decoder is interpreted on 12 continuation bytes, on an over-long encoding and on the longest valid one
+        from .. import region as RG
+        lay = P.distructs.get('stream')
+        so = {m['name']: m['off'] for m in lay['members']}
+        def decode(data):
+            R = RG.Region(P, extern=lambda ins, args: ((0xffffffff,) if ins.callee == 'sgetc_uncached' else None))
+            sp = RG.P_(('obj', 'stream'), 0)
+            rb = R.array('rbuf', list(data) + [0x55], 1)
+            R.mem[(sp.reg, so['pos'])] = rb; R.mem[(sp.reg, so['end'])] = RG.P_(rb.reg, len(data))
+            res = RG.P_(('obj', 'value'), 0)
+            try:
+                rv = R.run(g, 0, [sp, res])
+            except RG.OutOfBounds as e:
+                return 'ub', str(e), None
+            except RG.Unsupported as e:
+                raise AnalysisBroken('cannot interpret %s: %s' % (name, e))
+            return RG.signed(rv & 0xffffffff, 32), R.mem.get((res.reg, 0)), R.mem[(sp.reg, so['pos'])].off
+        ngroups = (W + 6) // 7
+        cases = [('endless continuation', [0x00] * 12, 'reject'), ('one group too many', [0x01] * ngroups + [0x81], 'reject'),
+                 ('longest valid encoding', [0x7f] * (ngroups - 1) + [0x80 | ((1 << (W - 7 * (ngroups - 1))) - 1)], 'accept')]
+        bad_ = None
+        for what, data, want in cases:
+            rv, val_, used = decode(data)
+            if rv == 'ub':
+                bad_ = bad_ or '%s: %s' % (what, val_)
+            elif want == 'reject' and rv == 0:
+                bad_ = bad_ or '%s (%d bytes) is accepted with value %s' % (what, len(data), val_)
+            elif want == 'accept' and (rv != 0 or val_ != (1 << W) - 1):
+                bad_ = bad_ or '%s is not decoded to the maximum value (status %s, value %s)' % (what, rv, val_)
+        rep.check(bad_ is None, 'R-C09-2', '%s: damaged varints are refused without an oversize shift' % name, g.file, '3 adversarial encodings' if bad_ is None else bad_, function=name, construct='shift bound')
     g = P.fn('sgetble32')
     rep.analysed(g)
     c = list(g.calls('sread'))
